@@ -16,11 +16,13 @@ for shape in (5, 6, 7):          # redefinition scenarios: direct evaluation onl
         for order in ((0, 1) if shape == 5 else (0,)):
             for mode in (0, 2):
                 redef.append([shape, site, order, mode])
+clos = [[shape, site, order, mode] for shape in (10, 11) for site in range(7) for order in (0, 1) for mode in range(5)]
+closq = [c for c in clos if c[1] in (0, 2, 5) and c[3] in (0, 1, 2)]
 glob = [[shape, site, order, mode] for shape in (8, 9) for site in range(7) for order in range(6) for mode in range(5)]
 # quick: every order x {list forms, compiled} for the bare, nested-in-+ and if-test readers; the re-evaluation modes on two orders
 globq = [c for c in glob if (c[1] in (0, 2, 3) and c[3] in (0, 1)) or (c[1] in (0, 1, 2, 4) and c[2] in (0, 3) and c[3] in (2, 3, 4))]
-quick = [c for c in cases if (c[2] in (0, 5) and c[1] != 6) or (c[3] == 0 and c[2] == 3)] + redef + globq
-thorough = cases + redef + glob
+quick = [c for c in cases if (c[2] in (0, 5) and c[1] != 6) or (c[3] == 0 and c[2] == 3)] + redef + globq + closq
+thorough = cases + redef + glob + clos
 findings = [[0,2,5,0],[0,0,0,0],[0,1,0,1],[6,0,0,0],[7,0,0,0]]
 NOTE = ("Program = top-level forms: defuns of zza/zzb/zzc whose bodies are C01 trace forms calling each other with symbolic "
   "arguments, then main calls. shape: 0 chain a->b->c, 1 fan a->b,c, 2 mutual recursion a<->b guarded by a symbolic counter, 3 self "
@@ -30,7 +32,8 @@ NOTE = ("Program = top-level forms: defuns of zza/zzb/zzc whose bodies are C01 t
   "the global introduced by defvar (8) or a top-level setq (9), a second function zzset assigning it, main = (zzget) (zzset L) (zzget); "
   "for these two shapes the definitions permuted are {defun zzget, defvar/setq, defun zzset} and site selects how zzget refers to the "
   "variable: bare body form, bare after another form, (+ v m), (if v (list v m) m), inside a trace form, let body, body of a lambda "
-  "made at call time. site (kind of call site, shapes 0-7): bare body form, argument of +, inside a trace form, branch of if "
+  "made at call time; 10/11 the callee zzb is defined by a defun INSIDE a let whose variable its body uses (a closure), before or after "
+  "its caller (order), and redefined between two evaluations of the main form inside another let (10) or at top level (11). site (kind of call site, shapes 0-7): bare body form, argument of +, inside a trace form, branch of if "
   "with a symbolic test, body of let, (funcall (quote f) ..), argument of progn. order: all 6 permutations of the three definitions. "
   "mode: 0 Scope.Eval of each list form in order; 1 slip.Code + Code.Compile() + evaluation of the compiled objects; 2 the forms "
   "after the definitions evaluated 3 times (same list objects, so the in-place rewriting of the first evaluation is in effect); 3 "
